@@ -216,4 +216,31 @@ AddAll(r, ids) ==
   ELSE AddAll(AddPost(r.store, r.hidx, r.count, r.last, Head(ids)), Tail(ids))
 ForkPost(s, hx, c, lg, anc, ids) ==
   AddAll(RemoveDownTo([store |-> s, hidx |-> hx, count |-> c, last |-> lg], anc), ids)
+
+(* Overlapping calls.  AddGroup(g) runs in two critical sections: (1) without the lock: the id
+   must not be on the chain yet (Has), then consensusHelper.CheckGroup - where a call can stay
+   for a long time; (2) under chain.lock: the predecessor named by the group must be the last
+   group, then save().  removeFromCommonAncestor runs entirely under chain.lock.  Two calls
+   that are both in (1) when the first enters (2):
+     a = [g, pre], b = [op ("Add" | "Remove"), g, pre], first \in {"a", "b"}: whose locked
+     section runs first (for b = Remove: "b" = the removal happens while a is in CheckGroup).
+   EarlyPre = TRUE is a variant that compares the predecessor in section (1) (negative control). *)
+Rec4(s, hx, c, lg) == [store |-> s, hidx |-> hx, count |-> c, last |-> lg]
+AddLocked(r, g, p, passedHas, earlyOk, early) ==
+  IF ~passedHas THEN [r |-> r, ok |-> FALSE]
+  ELSE IF (IF early THEN earlyOk ELSE p = r.last) /\ r.count < MaxCount
+         THEN [r |-> AddPost(r.store, r.hidx, r.count, r.last, g), ok |-> TRUE]
+         ELSE [r |-> r, ok |-> FALSE]
+RemoveLocked(r) == IF r.last # Genesis /\ r.store[r.last].present
+                     THEN [r |-> RemovePost(r.store, r.hidx, r.count, r.last), ok |-> TRUE]
+                     ELSE [r |-> r, ok |-> FALSE]
+ConcPost(s, hx, c, lg, a, b, first, early) ==
+  LET r0   == Rec4(s, hx, c, lg)
+      hasA == ~s[a.g].present
+      hasB == b.op = "Add" /\ ~s[b.g].present
+      stepA(r) == AddLocked(r, a.g, a.pre, hasA, a.pre = lg, early)
+      stepB(r) == IF b.op = "Add" THEN AddLocked(r, b.g, b.pre, hasB, b.pre = lg, early) ELSE RemoveLocked(r)
+  IN IF first = "a"
+       THEN LET x == stepA(r0)  y == stepB(x.r) IN [r |-> y.r, okA |-> x.ok, okB |-> y.ok]
+       ELSE LET y == stepB(r0)  x == stepA(y.r) IN [r |-> x.r, okA |-> x.ok, okB |-> y.ok]
 =============================================================================
